@@ -19,7 +19,7 @@ for it in nfa.UNIT['items']:
         items.append(RawFile(os.path.join(HERE, '..', 'u_nfa', it.path), it.label))
     else:
         items.append(it)
-items += [RawFile(os.path.join(HERE, '..', 'common', 'clsf.rs'), 'clsf.rs'), RawFile('lang_path.rs'), RawFile('lang_embed.rs'), RawFile('lang_constr.rs'), RawFile('lang_regex.rs'), RawFile('lang_thm.rs'), RawFile('lang_cls.rs')]
+items += [RawFile(os.path.join(HERE, '..', 'common', 'clsf.rs'), 'clsf.rs'), RawFile('lang_path.rs'), RawFile('lang_embed.rs'), RawFile('lang_constr.rs'), RawFile('lang_regex.rs'), RawFile('lang_thm.rs'), RawFile('lang_cls.rs'), RawFile('lang_fresh.rs')]
 
-LANG_FILES = ['lang_path.rs', 'lang_embed.rs', 'lang_constr.rs', 'lang_regex.rs', 'lang_thm.rs', 'lang_cls.rs']
+LANG_FILES = ['lang_path.rs', 'lang_embed.rs', 'lang_constr.rs', 'lang_regex.rs', 'lang_thm.rs', 'lang_cls.rs', 'lang_fresh.rs']
 UNIT = dict(name='u_lang', externs=['regex_syntax'], header=nfa.UNIT['header'], items=items)
